@@ -265,4 +265,8 @@ pub proof fn lemma_unconditional(a0: AArena<2>, a: AArena<2>, root: usize, b: Se
         }
     }
 }
+// every node below the root carries a verdict (nothing is Indeterminate): a second run of the elimination finds only cached states
+pub open spec fn all_decided(a: AArena<2>, root: usize) -> bool {
+    forall|i: usize| #![trigger a[i].value] a.dom().contains(i) && i != root ==> !(a[i].value.state is Indeterminate)
+}
 // ---- end elim_region_spec ----
